@@ -158,6 +158,33 @@ Notation seq_layer := (seq_layer ascii_lower).
 Notation spec_layer := (spec_layer ascii_lower).
 Notation layer_ok := (layer_ok ascii_lower).
 
+(** * Which failure is reported when several tasks fail
+    (a failure = an [Err] value or a panic; both are failure codes here).  A parallel
+    [try_for_each] / [collect] reports the failure of SOME failing task, whichever the schedule
+    lets finish first; when all failing tasks fail alike — in particular when only one fails —
+    every schedule and the sequential build report the same.  So the two builds must agree on
+    Ok-or-failure always, and on WHICH failure only when the failing tasks agree among themselves
+    (known finding raw-entry-panic-vs-io-error: one task panics, another returns an error). *)
+Theorem C19_save_failure_is_some_tasks : forall sched tree (ws : list stask) e,
+  par_save sched tree ws = inl e -> exists p, In (p, inl e) ws.
+Proof. exact par_save_err_in. Qed.
+Theorem C19_save_failure_uniform : forall sched tree (ws : list stask) e0,
+  (forall p e, In (p, inl e) ws -> e = e0) -> forallb stask_ok ws = false ->
+  par_save sched tree ws = inl e0 /\ seq_save tree ws = inl e0.
+Proof. exact par_save_failure_uniform. Qed.
+Theorem C19_load_failure_is_some_tasks : forall sched s ts e,
+  snd (par_glyphs sched s ts) = inl e -> exists t, In t ts /\ t_out t = TErr e.
+Proof. exact par_glyphs_err_in. Qed.
+(** two failing tasks that fail differently (99: the panic of a name without a glyph, 5: an I/O
+    error), one that succeeds: the sequential build reports the first in name order, the parallel
+    one either, depending on the schedule; with one kind of failure all agree *)
+Example C19_mixed_failures_race :
+  let ws : list stask := [ ([65], inl 99); ([98], inr [1]); ([113], inl 5) ] in
+  seq_save [] ws = inl 99 /\ par_save [0;1;2]%nat [] ws = inl 99 /\ par_save [2;1;0]%nat [] ws = inl 5 /\
+  let ws1 : list stask := [ ([65], inl 5); ([98], inr [1]); ([113], inl 5) ] in
+  par_save [2;1;0]%nat [] ws1 = inl 5 /\ par_save [0]%nat [] ws1 = inl 5 /\ seq_save [] ws1 = inl 5.
+Proof. vm_compute. repeat split. Qed.
+
 (** * Non-vacuity *)
 Definition nm (c : N) (id : N) : name := ([c], id).
 (** THE racy interleaving: two threads ask for the same content "a" (97) with their own
